@@ -25,6 +25,9 @@ def dispatch(prop):
     if prop == "C20":
         import intern
         return intern.run_c20
+    if prop in ("C16", "C17"):
+        import lr
+        return lr.run_c16 if prop == "C16" else lr.run_c17
     if prop == "C08":
         import conversions
         return conversions.run_c08
